@@ -150,8 +150,16 @@ def engine_A(name, kinds, nitems, maxp, probe_filter, wit, hashers=("std",), ext
                 pr = probes
                 if probe_sample is not None and len(probes) > probe_sample:
                     pr = rng.sample(probes, probe_sample)      # seeded sample of the alphabet from this state
+                steps = r["steps"]
+                if not (steps and steps[0].get("op") in ("from_vec", "from_iter", "de")):
+                    # every public constructor takes its turn at creating the queue under test
+                    hows = (["new", "with_capacity", "default", "with_default_hasher", "with_capacity_and_default_hasher"]
+                            if h == "std" else
+                            ["with_hasher", "with_capacity_and_hasher", "default", "with_default_hasher",
+                             "with_capacity_and_default_hasher"])
+                    steps = [{"op": "new", "q": 0, "how": hows[i % len(hows)], "cap": [0, 1, 5, 64][(i // 5) % 4]}] + steps
                 cases.append({"case": [kind, h, alphabet, i], "kind": kind, "hasher": h, "universe": keyset(nitems),
-                              "steps": r["steps"], "probes": pr, "wit": wit})
+                              "steps": steps, "probes": pr, "wit": wit})
         if cases:
             f.samples.append({"engine": "A", "kind": kind, "history": cases[len(cases) // 2]["steps"],
                               "probes_from_that_state": len(probes)})
@@ -310,11 +318,22 @@ def engine_C(name, kinds, iters, sizes, depth, adaptors=True, forget=True, wd_na
     nprobe = 0
     for kind in kinds:
         for n in sizes:
-            for pat, ranks in enumerate(([i % 2 for i in range(n)], [n - i for i in range(n)])):
+            import itertools
+            # priority patterns: ties, descending, and - for the sorted iterators, whose results depend on where the
+            # extremes sit in the heap - every permutation of distinct priorities (n <= 4) or a seeded sample
+            pats = [[i % 2 for i in range(n)], [n - i for i in range(n)]]
+            if "sorted" in iters and n >= 2:
+                perms = [list(p) for p in itertools.permutations(range(1, n + 1))]
+                if len(perms) > 24:
+                    perms = random.Random(n).sample(perms, 24)
+                pats += [p for p in perms if p not in pats]
+            for pat, ranks in enumerate(pats):
                 steps = [{"op": "push", "k": KEYS[i], "r": ranks[i]} for i in range(n)]
                 probes = []
                 for it in iters:
                     if pat == 1 and it not in ("sorted", "iter_mut"):
+                        continue
+                    if pat >= 2 and it != "sorted":
                         continue
                     impl = machine_of(kind, it)
                     opn = "into_calls" if it in CONSUMING else "iter_calls"
@@ -330,6 +349,13 @@ def engine_C(name, kinds, iters, sizes, depth, adaptors=True, forget=True, wd_na
                             probes.append([{"op": opn, "it": it, "calls": alt + [2, 3] + [0] * (n + 2)}])
                             fin = 6 if (ci // 3) % 2 == 0 else 7
                             probes.append([{"op": opn, "it": it, "calls": list(cs[:j + 1]) + [fin, 2, 0, 0]}])
+                    # last() / count() / nth after every consumed prefix (from the front, and from the back where offered)
+                    for m in range(0, n + 1):
+                        for fin in ([6], [7], [[4, 0]], [[4, 1]], [[4, n]]):
+                            probes.append([{"op": opn, "it": it, "calls": [0] * m + fin + [3, 0, 0]}])
+                            if not is_fwd(kind, it) and m > 0:
+                                probes.append([{"op": opn, "it": it, "calls": [1] * m + fin + [3, 0, 0]}])
+                                probes.append([{"op": opn, "it": it, "calls": [0] * m + [[5, 0]] + [3, 1, 0]}])
                     if forget and it in ("drain", "iter_mut"):
                         for cs in ([], [0], [0, 0], [0] * n):
                             bk = "pop" if kind == "pq" else "pop_min"
